@@ -419,7 +419,14 @@ template <std::size_t I, class Allocator, class... Parameter>
 [[nodiscard]] constexpr decltype(auto) get(
     const cntgs::BasicContiguousElement<Allocator, Parameter...>&& element) noexcept
 {
-    return detail::as_const(std::move(cntgs::get<I>(element.reference_)));
+    if constexpr (std::is_reference_v<std::tuple_element_t<I, cntgs::BasicContiguousReference<false, Parameter...>>>)
+    {
+        return std::move(detail::as_const(cntgs::get<I>(element.reference_)));
+    }
+    else
+    {
+        return detail::as_const(cntgs::get<I>(element.reference_));
+    }
 }
 }  // namespace cntgs
 
